@@ -506,7 +506,7 @@ Section Frame.
   (* ---------------------------------------------------------------- control-flow conformance *)
   (* What the control-flow and constant-block op functions are allowed to do to nextpc and the
      callstack, in terms of the same decoders the static check uses (eval.go: opBnz2B, opBz2B,
-     opB2B, opCallSub2B, opBnz, opBz, opB, opCallSub, opSwitch, opMatch, opRetSub,
+     opB2B, opCallSub2B, opBnz, opBz, opB, opCallSub, opSwitch, opMatch, opRetSub, opReturn,
      opIntConstBlock, opByteConstBlock, opPushInts, opPushBytess, opPushInt, opPushBytes);
      every other op leaves both alone. *)
   Definition ctl_allowed (v : N) (s : opspec) (prog : list N) (pc : nat) (calls : list nat)
@@ -544,6 +544,7 @@ Section Frame.
         | r :: rest => Nat.eqb nextpc r && calls_eqb calls' rest
         | [] => false
         end
+    | OpReturn => Nat.eqb nextpc (length prog) && same
     | OpIntcBlock | OpPushInts =>
         match parse_int_imm prog (S pc) with Some nx => Nat.eqb nextpc nx && same | None => false end
     | OpBytecBlock | OpPushBytess =>
@@ -555,3 +556,36 @@ Section Frame.
     end.
 
 End Frame.
+
+(* ------------------------------------------------------------------ a reference op family *)
+(* A concrete op-function family that does nothing but control flow (stack, pooled budget and
+   world untouched; conditional branches never taken; switch/match fall through).  It meets
+   every contract the theorems ask of [opf] (control-flow conformance, budget, stack effect), so
+   those hypotheses are satisfiable; it is NOT a model of the real opcodes. *)
+Definition ref_opf (lsv max_bytes v : N) (s : opspec) (prog : list N) (st : state unit) : outcome unit :=
+  let pc := st_pc unit st in
+  let calls := st_calls unit st in
+  let ok (n : nat) (c : list nat) := OOk unit (st_stack unit st) n c (st_pool unit st) tt in
+  match os_ok s with
+  | OpPlain => ok 0 calls
+  | OpBnz2B | OpBz2B => ok (pc + 3) calls
+  | OpB2B => match branch_target_2b v prog pc with Some t => ok t calls | None => OErr unit end
+  | OpCallsub2B => match branch_target_2b v prog pc with Some t => ok t ((pc + 3) :: calls) | None => OErr unit end
+  | OpBnzV | OpBzV =>
+      match branch_target_varint prog pc with Some (Some _, isz) => ok (pc + isz) calls | _ => OErr unit end
+  | OpBV => match branch_target_varint prog pc with Some (Some t, _) => ok t calls | _ => OErr unit end
+  | OpCallsubV =>
+      match branch_target_varint prog pc with Some (Some t, isz) => ok t ((pc + isz) :: calls) | _ => OErr unit end
+  | OpSwitch | OpMatch =>
+      if Nat.leb (length prog) (S pc) then OErr unit
+      else match switch_target prog pc (N.of_nat (N.to_nat (byte_at prog (S pc)))) with
+           | Some t => ok t calls
+           | None => OErr unit
+           end
+  | OpRetsub => match calls with r :: rest => ok r rest | [] => OErr unit end
+  | OpReturn => ok (length prog) calls
+  | OpIntcBlock | OpPushInts => match parse_int_imm prog (S pc) with Some nx => ok nx calls | None => OErr unit end
+  | OpBytecBlock | OpPushBytess => match byte_imm_args lsv max_bytes prog pc with Some nx => ok nx calls | None => OErr unit end
+  | OpPushInt => match push_int_next prog pc with Some nx => ok nx calls | None => OErr unit end
+  | OpPushBytes => match push_bytes_next prog pc with Some nx => ok nx calls | None => OErr unit end
+  end.
